@@ -202,11 +202,16 @@ func (msg *Message) RESPBytes() ([]byte, error) {
 		if err != nil {
 			return nil, err
 		}
+		if array == nil {
+			return nil, fmt.Errorf(errorInvalidMessage, "array message has no array")
+		}
 		bytes, err := array.RESPBytes()
 		if err != nil {
 			return nil, err
 		}
 		respBytes.Write(bytes)
+	default:
+		return nil, fmt.Errorf(errorUnknownMessageType, msg.Type)
 	}
 
 	return respBytes.Bytes(), nil
